@@ -74,6 +74,22 @@ def gen(stratum, rng, tier):
         base = rng.choice(["supported", "grammar", "global", "mixed", "sums", "planted-unique"])
     spec = cpgen.gen_spec(base, rng)
     case = {"spec": spec, "hints": [None], "limits": rng.sample([1, 3, 100], 2)}
+    if rng.random() < 0.3 and len(spec["vars"]) <= 4:
+        from vf.gen.cpgen import C, V
+
+        nv = len(spec["vars"])
+        lb = rng.choice([0, 0, 1, -1])
+        j = rng.randrange(nv)
+        r = rng.random()
+        if r < 0.35:
+            con = ("rel", rng.choice(["eq", "ne"]), V(nv), V(j))
+        elif r < 0.7:
+            con = ("sum_le", [j, nv, rng.randrange(nv)], spec["vars"][j][2] + lb + 1)
+        elif r < 0.85:
+            con = ("all_different", [j, nv])
+        else:
+            con = ("sum_eq", [j, nv, rng.randrange(nv)], spec["vars"][j][1] + lb + rng.randint(0, 3))
+        case["extend"] = {"vars": [("w_new", lb, lb + rng.randint(0, 2))], "cons": [con]}
     if rng.random() < 0.35:
         # documented pass-through of solver options (Model.solve(**kwargs) -> solve_sat): restart schedules that make
         # the small encoded formulas restart, which they never do at the default luby_factor=100
@@ -213,6 +229,52 @@ def run(case, obs):
                     obs.violate("cp.unexpected-status", f"{st} cfg={cfg}")
                 if obs.violations:
                     return
+    ext = case.get("extend")
+    if ext:
+        _run_incremental(case, spec, ext, obs)
+
+
+def _run_incremental(case, spec, ext, obs):
+    """One Model object used the way a session uses it: solved (through the SAT path, so that the encoder has created its
+    auxiliary variables), then given another variable and constraint, then solved again - every answer is about the model
+    as it stands at that moment."""
+    from vf.common import call, is_crash
+
+    try:
+        model, xs, _built = ocp.build(spec, _cp.Model)
+    except ocp.Unbuildable:
+        return
+    first = call(obs, model.solve, what="Model.solve(sat) before extending", budget=60_000_000, solver="sat")
+    _satmon.drain()
+    if is_crash(first):
+        return
+    try:
+        spec2 = ocp.extend(spec, model, xs, ext["vars"], ext["cons"])
+    except ocp.Unbuildable:
+        return
+    if ocp.domain_product_size(spec2) > 4096 * 2:
+        return
+    S2 = ocp.solution_set(spec2)
+    S2_strict = ocp.solution_set(spec2, lenient=False) if ocp.has_zero_duration_no_overlap(spec2) else S2
+    named2 = [i for i, v in enumerate(spec2["vars"]) if v[0] is not None]
+    for solver in ("sat", "auto", "dfs"):
+        cfg = {"solver": solver, "after": "solve(sat) + int_var + add"}
+        res = call(obs, model.solve, what=f"Model.solve({solver}) after extending", budget=60_000_000, solver=solver)
+        _satmon.drain()
+        if is_crash(res):
+            continue
+        obs.event("cp.incremental.judged")
+        st = res.status.name
+        if st in ("OPTIMAL", "FEASIBLE"):
+            _judge_solution(spec2, named2, S2, res.solution, "solution", obs, cfg)
+            if not S2 and not obs.violations:
+                obs.violate("cp.solution-for-unsatisfiable-model", f"{res.solution} cfg={cfg}")
+        elif st == "INFEASIBLE":
+            if S2_strict:
+                obs.violate("cp.infeasible-but-satisfiable", f"INFEASIBLE although e.g. {sorted(S2_strict)[0]} over "
+                            f"{[spec2['vars'][i][0] for i in named2]} satisfies everything; cfg={cfg}")
+        if obs.violations:
+            return
 
 
 def shrink(case):
